@@ -19,15 +19,16 @@ theorem clusters_last_saved (render : Cell → String) (d : Disk) (ops : List Op
     apply ih
     cases op <;> simp [step, absStep, h]
 
-theorem unreadable_ignored (parse : String → Cell) (files : List (String × File)) (stem : String) :
-    metadataView parse (putFile files stem .unreadable) =
-      metadataView parse (files.filter fun p => p.1 != stem) := by
-  simp [metadataView, putFile, List.foldl_append, loadMetadata]
+theorem unreadable_ignored (parse : String → Cell) (files : List (FName × File)) (name : FName) :
+    metadataView parse (putFile files name .unreadable) =
+      metadataView parse (files.filter fun p => p.1 != name) := by
+  obtain ⟨s, b⟩ := name
+  cases b <;> simp [metadataView, putFile, List.foldl_append, loadMetadata, List.filter_append]
 
-theorem cluster_info_excluded (parse : String → Cell) (files : List (String × File)) (f : File) :
-    metadataView parse (putFile files "cluster_info" f) =
-      metadataView parse (files.filter fun p => p.1 != "cluster_info") := by
-  simp [metadataView, putFile, List.foldl_append]
+theorem cluster_info_excluded (parse : String → Cell) (files : List (FName × File)) (tsv : Bool) (f : File) :
+    metadataView parse (putFile files ("cluster_info", tsv) f) =
+      metadataView parse (files.filter fun p => p.1 != ("cluster_info", tsv)) := by
+  cases tsv <;> simp [metadataView, putFile, List.foldl_append, List.filter_append]
 
 /-! ### metadata refinement -/
 
@@ -181,41 +182,58 @@ theorem sorted_cleanMeta (m : List (Nat × Option Cell)) : Sorted (cleanMeta m) 
     · exact sorted_insertById _ _ h
     · exact List.Pairwise.filter _ h
 
-/-! the directory written by an `OwnOps` history mirrors the abstract state -/
-def fileOf (render : Cell → String) (p : String × List (Nat × Cell)) : String × File :=
-  ("cluster_" ++ p.1, simpleTable render p.1 p.2)
+/-! the directory written by an `OwnOps` history mirrors the abstract state (after the legacy CSVs) -/
+def fileOf (render : Cell → String) (p : String × List (Nat × Cell)) : FName × File :=
+  (("cluster_" ++ p.1, true), simpleTable render p.1 p.2)
 
 theorem stem_beq (a b : String) : ("cluster_" ++ a == "cluster_" ++ b) = (a == b) := by
   rw [Bool.eq_iff_iff]
   simp only [beq_iff_eq]
   exact String.append_right_inj _
 
-theorem files_eq_step (render : Cell → String) (d : Disk) (a : Abs) (op : Op)
+theorem name_bne (a b : String) :
+    ((("cluster_" ++ a, true) : FName) != ("cluster_" ++ b, true)) = (a != b) := by
+  rw [Bool.eq_iff_iff]
+  simp only [bne_iff_ne, ne_eq, Prod.mk.injEq, and_true]
+  rw [String.append_right_inj]
+
+theorem files_eq_step (render : Cell → String) (csvs : List (FName × File))
+    (hcsv : ∀ p ∈ csvs, p.1.2 = false) (d : Disk) (a : Abs) (op : Op)
     (hop : match op with | .writeFile _ _ => False | _ => True)
-    (h : d.files = a.fields.map (fileOf render)) :
-    (step render d op).files = (absStep a op).fields.map (fileOf render) := by
+    (h : d.files = csvs ++ a.fields.map (fileOf render)) :
+    (step render d op).files = csvs ++ (absStep a op).fields.map (fileOf render) := by
   cases op with
   | writeFile s f => exact hop.elim
   | saveMeta field m =>
+    have hc : (csvs.filter fun p => p.1 != (("cluster_" ++ field, true) : FName)) = csvs := by
+      rw [List.filter_eq_self]
+      intro p hp
+      have := hcsv p hp
+      obtain ⟨⟨s, b⟩, f⟩ := p
+      simp only at this
+      subst this
+      simp
     simp only [step, absStep, putFile, h, List.map_append, List.map_cons, List.map_nil,
-      List.filter_map, fileOf]
+      List.filter_map, List.filter_append, hc, fileOf, List.append_assoc]
     congr 2
+    congr 1
     apply List.filter_congr
     intro p _
-    simp only [Function.comp, fileOf, bne, stem_beq]
+    simp only [Function.comp, fileOf, name_bne]
   | _ => exact h
 
-theorem files_eq (render : Cell → String) (ops : List Op) :
+theorem files_eq (render : Cell → String) (csvs : List (FName × File))
+    (hcsv : ∀ p ∈ csvs, p.1.2 = false) (ops : List Op) :
     ∀ (d : Disk) (a : Abs), (∀ op ∈ ops, match op with | .writeFile _ _ => False | _ => True) →
-      d.files = a.fields.map (fileOf render) →
-      (run render d ops).files = (absRun a ops).fields.map (fileOf render) := by
+      d.files = csvs ++ a.fields.map (fileOf render) →
+      (run render d ops).files = csvs ++ (absRun a ops).fields.map (fileOf render) := by
   induction ops with
   | nil => intro d a _ h; exact h
   | cons op ops ih =>
     intro d a hops h
     simp only [run, absRun, List.foldl_cons] at ih ⊢
     exact ih _ _ (fun o ho => hops o (List.mem_cons_of_mem _ ho))
-      (files_eq_step render d a op (hops op (List.mem_cons_self ..)) h)
+      (files_eq_step render csvs hcsv d a op (hops op (List.mem_cons_self ..)) h)
 
 /-- invariant of the abstract metadata state -/
 def FieldsOK (l : List (String × List (Nat × Cell))) : Prop :=
@@ -253,7 +271,7 @@ theorem fieldsOK_run (ops : List Op) :
     cases op with
     | saveMeta field m => exact fieldsOK_upsert _ _ _ hop h
     | _ => exact h
-theorem lookup_filter_ne {β : Type} (l : List (String × β)) (k s : String) (h : k ≠ s) :
+theorem lookup_filter_ne {α β : Type} [BEq α] [LawfulBEq α] (l : List (α × β)) (k s : α) (h : k ≠ s) :
     (l.filter fun p => p.1 != s).lookup k = l.lookup k := by
   induction l with
   | nil => rfl
@@ -266,7 +284,7 @@ theorem lookup_filter_ne {β : Type} (l : List (String × β)) (k s : String) (h
     · have hb : (a != s) = true := by simpa using ha
       simp only [List.filter_cons, hb, if_true, List.lookup_cons, ih]
 
-theorem lookup_upsert_ne {β : Type} (l : List (String × β)) (k s : String) (x : β) (h : k ≠ s) :
+theorem lookup_upsert_ne {α β : Type} [BEq α] [LawfulBEq α] (l : List (α × β)) (k s : α) (x : β) (h : k ≠ s) :
     ((l.filter fun p => p.1 != s) ++ [(s, x)]).lookup k = l.lookup k := by
   have hb : (k == s) = false := by simpa using h
   rw [List.lookup_append, lookup_filter_ne l k s h]
@@ -289,15 +307,36 @@ theorem lookup_upsert_self {β : Type} (l : List (String × β)) (s : String) (x
 
 
 /-- one step of `metadataView` -/
-def viewStep (parse : String → Cell) (acc : List (String × List (Cell × Cell))) (p : String × File) :
+def viewStep (parse : String → Cell) (acc : List (String × List (Cell × Cell))) (p : FName × File) :
     List (String × List (Cell × Cell)) :=
-  if p.1 == "cluster_info" then acc else
+  if p.1.1 == "cluster_info" then acc else
   match loadMetadata parse p.2 with
   | none => acc
   | some fields => fields.foldl (fun a fd => (a.filter fun q => q.1 != fd.1) ++ [fd]) acc
 
-theorem metadataView_eq (parse : String → Cell) (files : List (String × File)) :
-    metadataView parse files = files.foldl (viewStep parse) [] := rfl
+theorem metadataView_eq (parse : String → Cell) (files : List (FName × File)) :
+    metadataView parse files =
+      ((files.filter fun p => !p.1.2) ++ (files.filter fun p => p.1.2)).foldl (viewStep parse) [] := rfl
+
+theorem metadataView_split (render : Cell → String) (parse : String → Cell)
+    (csvs : List (FName × File)) (hcsv : ∀ p ∈ csvs, p.1.2 = false)
+    (l : List (String × List (Nat × Cell))) :
+    metadataView parse (csvs ++ l.map (fileOf render)) =
+      (l.map (fileOf render)).foldl (viewStep parse) (csvs.foldl (viewStep parse) []) := by
+  have h1 : (csvs.filter fun p => !p.1.2) = csvs := by
+    rw [List.filter_eq_self]; intro p hp; simp [hcsv p hp]
+  have h2 : (csvs.filter fun p => p.1.2) = [] := by
+    rw [List.filter_eq_nil_iff]; intro p hp; simp [hcsv p hp]
+  have h3 : ((l.map (fileOf render)).filter fun p => !p.1.2) = [] := by
+    rw [List.filter_eq_nil_iff]; intro p hp
+    obtain ⟨q, _, rfl⟩ := List.mem_map.1 hp
+    simp [fileOf]
+  have h4 : ((l.map (fileOf render)).filter fun p => p.1.2) = l.map (fileOf render) := by
+    rw [List.filter_eq_self]; intro p hp
+    obtain ⟨q, _, rfl⟩ := List.mem_map.1 hp
+    simp [fileOf]
+  rw [metadataView_eq, List.filter_append, List.filter_append, h1, h2, h3, h4]
+  simp [List.foldl_append]
 
 theorem viewStep_fileOf (render : Cell → String) (parse : String → Cell)
     (hrt : ∀ c, parse (render c) = c) (hne : ∀ c, render c ≠ "")
@@ -370,30 +409,29 @@ theorem lookup_view (render : Cell → String) (parse : String → Cell)
 theorem metadata_last_saved (render : Cell → String) (parse : String → Cell)
     (hrt : ∀ c, parse (render c) = c) (hne : ∀ c, render c ≠ "")
     (hid : ∀ n : Nat, parse (toString n) = .int n)
+    (csvs : List (FName × File)) (hcsv : ∀ p ∈ csvs, p.1.2 = false)   -- any legacy CSV files, any content
     (ops : List Op) (hown : OwnOps ops) (field : String) (vals : List (Nat × Cell))
     (hf : (absRun ⟨[], []⟩ ops).fields.lookup field = some vals)
-    (hinfo : field ≠ "info") :
-    fieldView parse (run render ⟨[], [], false⟩ ops) field =
-      some (vals.map fun p => (Cell.int p.1, p.2)) ∨ vals = [] := by
-  by_cases hvals : vals = []
-  · exact Or.inr hvals
-  · left
-    have hfiles := files_eq render ops ⟨[], [], false⟩ ⟨[], []⟩
-      (fun op hop => by
-        have := hown op hop
-        cases op <;> first | exact this | trivial) rfl
-    have hok := fieldsOK_run ops ⟨[], []⟩ hown ⟨List.nodup_nil, fun _ h => by simp at h⟩
-    rw [fieldView, metadataView_eq, hfiles]
-    exact lookup_view render parse hrt hne hid field vals hinfo hvals _ [] hok hf
+    (hinfo : field ≠ "info")     -- `cluster_info.tsv` is deliberately ignored on load
+    (hvals : vals ≠ []) :
+    fieldView parse (run render ⟨[], csvs, false⟩ ops) field =
+      some (vals.map fun p => (Cell.int p.1, p.2)) := by
+  have hfiles := files_eq render csvs hcsv ops ⟨[], csvs, false⟩ ⟨[], []⟩
+    (fun op hop => by
+      have := hown op hop
+      cases op <;> first | exact this | trivial) (by simp)
+  have hok := fieldsOK_run ops ⟨[], []⟩ hown ⟨List.nodup_nil, fun _ h => by simp at h⟩
+  rw [fieldView, hfiles, metadataView_split render parse csvs hcsv]
+  exact lookup_view render parse hrt hne hid field vals hinfo hvals _ _ hok hf
 
 /-! ### frame -/
 
-theorem step_frame (render : Cell → String) (d : Disk) (op : Op) (stem : String)
+theorem step_frame (render : Cell → String) (d : Disk) (op : Op) (name : FName)
     (hs : match op with
-      | .saveMeta field _ => stem ≠ "cluster_" ++ field
-      | .writeFile s _ => stem ≠ s
+      | .saveMeta field _ => name ≠ ("cluster_" ++ field, true)
+      | .writeFile s _ => name ≠ s
       | _ => True) :
-    (step render d op).files.lookup stem = d.files.lookup stem := by
+    (step render d op).files.lookup name = d.files.lookup name := by
   cases op with
   | saveMeta field m => exact lookup_upsert_ne _ _ _ _ hs
   | writeFile s f => exact lookup_upsert_ne _ _ _ _ hs
